@@ -797,6 +797,13 @@ func (f *c45fx) signers(name string) []byte {
 		s = []ontid.Signer{{Id: f.id["A"], Index: 1}, {Id: f.id["X"], Index: 1}}
 	case "sAA":
 		s = []ontid.Signer{{Id: f.id["A"], Index: 1}, {Id: f.id["A"], Index: 1}}
+	// entries of a non-member ahead of the members that are merely named
+	case "sXA":
+		s = []ontid.Signer{{Id: f.id["X"], Index: 1}, {Id: f.id["A"], Index: 1}}
+	case "sXAB":
+		s = []ontid.Signer{{Id: f.id["X"], Index: 1}, {Id: f.id["A"], Index: 1}, {Id: f.id["B"], Index: 1}}
+	case "sXXAB":
+		s = []ontid.Signer{{Id: f.id["X"], Index: 1}, {Id: f.id["X"], Index: 1}, {Id: f.id["A"], Index: 1}, {Id: f.id["B"], Index: 1}}
 	default:
 		panic("c45: signers " + name)
 	}
@@ -950,6 +957,9 @@ func (f *c45fx) buildAlphabet(thorough bool) {
 		{"sAX", []string{"a1", "k1"}, false},
 		{"sAA", []string{"a1"}, true},
 		{"sAB", allX, false},
+		{"sXA", []string{"k1"}, true},
+		{"sXAB", []string{"k1"}, false},
+		{"sXXAB", []string{"k1"}, true},
 	}
 	ctw = append(ctw, c45TW{"i2", []string{"a2"}, false}, c45TW{"i1", []string{"a2"}, false}, c45TW{"i2", []string{"a1"}, false},
 		c45TW{"sA2B", []string{"a2", "b1"}, false}, c45TW{"sA2", []string{"a2"}, false})
@@ -989,6 +999,9 @@ func (f *c45fx) buildAlphabet(thorough bool) {
 		{"sAX", []string{"a1", "k1"}, false},
 		{"sAA", []string{"a1"}, false},
 		{"sAB", allX, false},
+		{"sXA", []string{"k1"}, true},
+		{"sXAB", []string{"k1"}, false},
+		{"sXXAB", []string{"k1"}, true},
 	}
 	rtw = append(rtw, c45TW{"sA2B", []string{"a2", "b1"}, false}, c45TW{"sA2", []string{"a2"}, false})
 	type bySig struct {
